@@ -38,8 +38,8 @@ func C14(seed uint64, run int) *spec.Spec {
 			}
 			st.Acts = append(st.Acts, spec.Act{Kind: kinds[ki], Pick: r.U64() >> 1})
 		}
-		if r.Chance(0.25) {
-			st.Extra = r.Range(1, 3)
+		if r.Chance(0.3) {
+			st.Extra = r.Range(1, 4)
 		}
 		s.History = append(s.History, st)
 	}
